@@ -15,13 +15,18 @@ import (
 // depend on what the layer happened to hold when the call arrived, i.e. on the
 // order of writes and on transaction boundaries, not only on the net effect.
 func checkLayerMutatorsUnconditional(c *core.Ctx) {
-	for _, spec := range []struct{ pkg, fn, callee string }{
-		{pkOverlayDB, "OverlayDB.Put", "Put"},
-		{pkOverlayDB, "OverlayDB.Delete", "Delete"},
-		{pkNatStorage, "CacheDB.put", "Put"},
-		{pkNatStorage, "CacheDB.delete", "Delete"},
+	for _, spec := range []struct{ pkg, fn, alt, callee string }{
+		{pkOverlayDB, "OverlayDB.Put", "", "Put"},
+		{pkOverlayDB, "OverlayDB.Delete", "", "Delete"},
+		{pkNatStorage, "CacheDB.put", "CacheDB.Put", "Put"},
+		{pkNatStorage, "CacheDB.delete", "CacheDB.Delete", "Delete"},
 	} {
-		fn := c.Fn(spec.pkg, spec.fn)
+		var fn *ssa.Function
+		if spec.alt == "" {
+			fn = c.Fn(spec.pkg, spec.fn)
+		} else {
+			fn = c.FnAny(spec.pkg, spec.fn, spec.alt)
+		}
 		if fn == nil {
 			continue
 		}
